@@ -226,6 +226,15 @@ def run_case(case, ctx):
 
         diff = "\n".join(list(difflib.unified_diff(stub.splitlines(), back.splitlines(), lineterm="", n=0))[:12])
         raise Violation("stub-prefix-form-differs", f"the stub generated with module_prefix='__cs__.' / cls_name='_c_structure' is not the default stub with those names substituted:\n{diff}\n--- definitions\n{text}")
+    # ... and in that form every name of the dissect.cstruct module is spelled with the module prefix, at every nesting depth
+    # (the .pyi of the file form imports nothing but the module itself)
+    import re as _re
+
+    for nm in ("Array", "Pointer", "CharArray", "WcharArray", "Structure", "Union", "Enum", "Flag"):
+        bare = [mm.start() for mm in _re.finditer(r"(?<![\w.])" + nm + r"\b", pstub)]
+        if bare:
+            line = pstub[: bare[0]].count("\n")
+            raise Violation("stub-prefix-form-differs", f"with module_prefix='__cs__.' the stub names {nm!r} without the prefix: {pstub.splitlines()[line].strip()!r}\n--- definitions\n{text}")
     try:
         compile(stub, "stub", "exec")
     except SyntaxError as e:
